@@ -258,7 +258,7 @@ func c09r4(p *Prog, r *Reporter) {
 		}
 		name := p.FuncName(fn)
 		sum := ps.of(fn)
-		short := fn.Name()
+		short := cname(fn)
 		allowed := map[sumPair]bool{}
 		switch {
 		case short == "Close":
